@@ -909,6 +909,14 @@ class Gen:
         self.emit('verus! {', ('gen', '', 0))
         self.inline = {}
         for (file, name), props in sorted(self.auto_fns.items()):
+            if name.startswith('const:'):
+                # a named constant no template knows (introduced by the change under test): its value, evaluated from /repo
+                try:
+                    self.const_decl(f'{name[6:]} file={file}', ('gen', '', 0))
+                    self.notes.append(f'auto-included constant {name[6:]} from {file}')
+                except Exception as e:
+                    self.notes.append(f'constant {name[6:]} of {file} cannot be evaluated: {e}')
+                continue
             if name.startswith('method:'):
                 _m, recv, mname = name.split(':', 2)
                 inl = self._inlinable_method(file, mname, recv)
@@ -920,7 +928,7 @@ class Gen:
                 self.inline[name] = inl
         self.include(self.tmpl_path, 'tmpl')
         for (file, name), props in sorted(self.auto_fns.items()):
-            if name not in self.inline and not name.startswith('method:'):
+            if name not in self.inline and not name.startswith('method:') and not name.startswith('const:'):
                 self.emit_auto_fn(file, name, props)
         self.emit('} // verus!', ('gen', '', 0))
         self.emit('fn main() {}', ('gen', '', 0))
